@@ -324,7 +324,7 @@ iscoroutinefunction_u = z3.Function("iscoroutinefunction_u", Val, B)
 
 def register3(reg):
     reg.ext_calls["inspect.iscoroutinefunction"] = lambda eng, st, pos, kw, node: [Res(st, SV(vbool(iscoroutinefunction_u(pos[0].t)), TBOOL))]
-    reg.ext_calls["inspect.isasyncgenfunction"] = lambda eng, st, pos, kw, node: [Res(st, SV(fresh("isagf"), TBOOL))]
+    reg.ext_calls["inspect.isasyncgenfunction"] = lambda eng, st, pos, kw, node: [Res(st, SV(vbool(z3.Function("isasyncgenfunction_u", Val, B)(pos[0].t)), TBOOL))]
 
     def pure_any(eng, st, pos, kw, node):
         st.uses.add("AX-ITER-PURE")
